@@ -1,4 +1,5 @@
 import AnonCreds.Model.Claims
+import AnonCreds.Model.Create
 /-
 C20 — totality on untrusted input. The model of every partial Rust function returns `Outcome`, whose
 `panic` constructor is produced exactly where the Rust code indexes, slices, unwraps or subtracts on
@@ -65,5 +66,137 @@ theorem toText_total (c : ClaimData)
 `from_text` on a 3-byte string and `from_bytes(Scalar, 3 bytes)` -/
 theorem pinned_fromText_panics : (ClaimData.fromText false [97, 98]).isPanic = true := by decide
 theorem pinned_fromBytes_panics : (ClaimData.fromBytes false .scalar [1, 2, 3]).isPanic = true := by decide
+
+/-! ### `Presentation::create` on a verifier-supplied schema (`Model/Create.lean`)
+
+The model returns a Boolean: every map / vector access of the real code is an explicit lookup whose
+failure is the `false` (error) outcome — the repaired behaviour; the pinned code indexed and unwrapped
+at the same places. What acceptance guarantees: -/
+section create
+open AC.Create AC.Verify
+
+theorem predsOk_hidden (creds : List (String × CredI)) (ms : Messages) (l : List CStmt)
+    (bs : List (String × Option (String × Nat))) (h : predsOk creds ms l = some bs) :
+    ∀ kind id ref claim, CStmt.simple kind id ref claim ∈ l → hiddenClaim ms ref claim = true := by
+  induction l generalizing bs with
+  | nil => intro _ _ _ _ hm; cases hm
+  | cons st rest ih =>
+    intro kind id ref claim hm
+    simp only [predsOk] at h
+    cases hr : predsOk creds ms rest with
+    | none => rw [hr] at h; cases h
+    | some bs' =>
+      rw [hr] at h
+      rcases List.mem_cons.mp hm with rfl | hm'
+      · simp only at h
+        by_cases hh : hiddenClaim ms ref claim = true
+        · exact hh
+        · simp [hh] at h
+      · exact ih bs' hr kind id ref claim hm'
+
+/-- every entry of the message table comes from a signature statement with a signature credential -/
+theorem messagesOf_lookup (creds : List (String × CredI)) (stmts : List CStmt) (ms : Messages)
+    (h : messagesOf creds stmts = some ms) (r : String) (v : List Msg) (hv : ms.lookup r = some v) :
+    ∃ disclosed labels nKey cs, CStmt.sig r disclosed labels nKey ∈ stmts ∧ sigClaims creds r = some cs ∧
+      cs.length ≤ labels.length ∧
+      v = (labels.take cs.length).map fun l => if disclosed.contains l then Msg.revealed else Msg.hidden := by
+  induction stmts generalizing ms with
+  | nil => simp [messagesOf] at h; subst h; simp at hv
+  | cons st rest ih =>
+    cases st with
+    | sig id disclosed labels nKey =>
+      simp only [messagesOf] at h
+      cases hr : messagesOf creds rest with
+      | none => rw [hr] at h; cases h
+      | some ms' =>
+        rw [hr] at h
+        simp only at h
+        cases hc : sigClaims creds id with
+        | none =>
+          rw [hc] at h; simp only [Option.some.injEq] at h; subst h
+          obtain ⟨d, l, n, cs, hm, h2, h3, h4⟩ := ih ms' hr hv
+          exact ⟨d, l, n, cs, List.mem_cons_of_mem _ hm, h2, h3, h4⟩
+        | some cs =>
+          rw [hc] at h
+          simp only at h
+          by_cases hl : cs.length ≤ labels.length
+          · rw [if_pos hl] at h
+            simp only [Option.some.injEq] at h; subst h
+            by_cases e : r = id
+            · subst e
+              simp only [List.lookup_cons_self, Option.some.injEq] at hv
+              exact ⟨disclosed, labels, nKey, cs, List.mem_cons_self, hc, hl, hv.symm⟩
+            · have : (r == id) = false := by simpa using e
+              simp only [List.lookup_cons, this] at hv
+              obtain ⟨d, l, n, cs', hm, h2, h3, h4⟩ := ih ms' hr hv
+              exact ⟨d, l, n, cs', List.mem_cons_of_mem _ hm, h2, h3, h4⟩
+          · rw [if_neg hl] at h; cases h
+    | equality id refs =>
+      simp only [messagesOf] at h
+      obtain ⟨d, l, n, cs, hm, h2, h3, h4⟩ := ih ms h hv
+      exact ⟨d, l, n, cs, List.mem_cons_of_mem _ hm, h2, h3, h4⟩
+    | simple kind id ref claim =>
+      simp only [messagesOf] at h
+      obtain ⟨d, l, n, cs, hm, h2, h3, h4⟩ := ih ms h hv
+      exact ⟨d, l, n, cs, List.mem_cons_of_mem _ hm, h2, h3, h4⟩
+    | range id ref sigId claim lower upper =>
+      simp only [messagesOf] at h
+      obtain ⟨d, l, n, cs, hm, h2, h3, h4⟩ := ih ms h hv
+      exact ⟨d, l, n, cs, List.mem_cons_of_mem _ hm, h2, h3, h4⟩
+
+/-- **What an accepted schema guarantees.** If `create` produces a presentation, every revocation /
+membership / commitment / encryption statement refers to a signature statement of the schema whose
+credential the holder supplied, at an existing claim index whose label the verifier did not ask to
+disclose. -/
+theorem create_ok_references_resolve (creds : List (String × CredI)) (stmts : List CStmt)
+    (h : createOk creds stmts = true) (kind : Kind) (id ref : String) (claim : Nat)
+    (hm : CStmt.simple kind id ref claim ∈ stmts) :
+    ∃ disclosed labels nKey cs, CStmt.sig ref disclosed labels nKey ∈ stmts ∧
+      sigClaims creds ref = some cs ∧ claim < cs.length ∧
+      ∃ l, labels[claim]? = some l ∧ disclosed.contains l = false := by
+  unfold createOk at h
+  simp only [Bool.and_eq_true] at h
+  obtain ⟨⟨⟨_, _⟩, _⟩, h4⟩ := h
+  cases hms : messagesOf creds stmts with
+  | none => rw [hms] at h4; cases h4
+  | some ms =>
+    rw [hms] at h4
+    simp only [Bool.and_eq_true] at h4
+    obtain ⟨⟨_, _⟩, h7⟩ := h4
+    cases hp : predsOk creds ms (stmts.filter (!·.isSig)) with
+    | none => rw [hp] at h7; cases h7
+    | some bs =>
+      have hmem : CStmt.simple kind id ref claim ∈ stmts.filter (!·.isSig) := by
+        simp [List.mem_filter, hm, CStmt.isSig]
+      have hh := predsOk_hidden creds ms _ bs hp kind id ref claim hmem
+      unfold hiddenClaim at hh
+      cases hl : ms.lookup ref with
+      | none => rw [hl] at hh; cases hh
+      | some v =>
+        rw [hl] at hh
+        obtain ⟨d, labels, n, cs, hsig, hc, hlen, hv⟩ := messagesOf_lookup creds stmts ms hms ref v hl
+        refine ⟨d, labels, n, cs, hsig, hc, ?_⟩
+        have hv' : v[claim]? = some Msg.hidden := by simpa using hh
+        rw [hv] at hv'
+        simp only [List.getElem?_map, List.getElem?_take] at hv'
+        by_cases hlt : claim < cs.length
+        · refine ⟨hlt, ?_⟩
+          rw [if_pos hlt] at hv'
+          cases hg : labels[claim]? with
+          | none => rw [hg] at hv'; cases hv'
+          | some l =>
+            rw [hg] at hv'
+            refine ⟨l, rfl, ?_⟩
+            simp only [Option.map_some, Option.some.injEq] at hv'
+            by_cases hd : d.contains l = true
+            · rw [if_pos hd] at hv'; cases hv'
+            · simpa using hd
+        · rw [if_neg hlt] at hv'; cases hv'
+
+example : createOk [("s", .sig [⟨1, none⟩, ⟨2, some 5⟩])]
+    [.sig "s" ["a"] ["a", "b"] 2, .simple .commitment "c" "s" 1, .range "r" "c" "s" 1 (some 0) none] = true := by decide
+
+
+end create
 
 end AC.C20
